@@ -132,6 +132,54 @@ theorem inflight_self_settlement_wins (k : Ack.Kind) (c : Cfg) (ss : List (Outco
   rw [← hself] at this
   exact this
 
+/-! ## the receive loop: every message taken from the subscriber is dispatched, also after stop/cancel/close -/
+
+/-- what the receive loop of a handler sees: a message coming out of the subscriber's channel, or the handler's context
+    being cancelled (Handler.Stop, cancel of Run's context, Router.Close) -/
+inductive LoopEv (β : Type) | recv (m : β) | cancel
+
+/-- `handler.run`: `for msg := range h.messagesCh { …Add(1)…; go h.handleMessage(msg, chain) }` – the messages for which
+    `handleMessage` is started; `cancelled` is carried along and (fact `run_receive_loop_branching_statements = 0`,
+    checked on every run) never consulted -/
+def spawned : Bool → List (LoopEv β) → List β
+  | _, [] => []
+  | c, .recv m :: rest => m :: spawned c rest
+  | _, .cancel :: rest => spawned true rest
+
+def received : List (LoopEv β) → List β
+  | [] => []
+  | .recv m :: rest => m :: received rest
+  | .cancel :: rest => received rest
+
+/-- **no cancel-dependent skip**: wherever the cancellations fall, `handleMessage` is started for exactly the messages
+    that came out of the subscriber's channel, in their order -/
+theorem spawned_eq_received (c : Bool) (evs : List (LoopEv β)) : spawned c evs = received evs := by
+  induction evs generalizing c with
+  | nil => rfl
+  | cons e rest ih => cases e <;> simp [spawned, received, ih]
+
+/-- a message handed out by the subscriber AFTER the cancel is dispatched like the ones before it -/
+theorem late_message_dispatched (early late : List β) :
+    spawned false (early.map .recv ++ .cancel :: late.map .recv) = early ++ late := by
+  rw [spawned_eq_received]
+  induction early with
+  | nil =>
+    simp only [List.map_nil, List.nil_append, received]
+    induction late with
+    | nil => rfl
+    | cons m r ih => simp [received, ih]
+  | cons m r ih => simp [received, ih]
+
+/-- … and therefore settled exactly once by its own `handleMessage`, in every interleaving with the others -/
+theorem late_messages_settled_once (c : Cfg) (early late : List (Outcome α × PubOutcome)) (t : List (Nat × Effect α))
+    (h : Interleave (batch c (spawned false (early.map .recv ++ .cancel :: late.map .recv))) t) (i : Nat)
+    (hi : i < early.length + late.length) :
+    (t.filter (fun e => decide (e.1 = i) && e.2.isRouterSettle)).length = 1 := by
+  rw [late_message_dispatched] at h
+  exact inflight_settles_exactly_once c (early ++ late) t h i (by simpa using hi)
+
+example : spawned false [LoopEv.recv 1, .cancel, .recv 2, .cancel, .recv 3] = [1, 2, 3] := by decide
+
 /-! ## middleware prefix of the harness -/
 
 /-- passthrough middlewares change nothing -/
